@@ -54,7 +54,7 @@ CLAIMS = {
          "defaults) is modelled in Program.new and compared differentially with Spec.faults; the parser bounds (128) come "
          "through the translator tie.",
          "Lean 4 proof (mutual induction, scan invariants) + differential oracle on mutated programs"),
- "C09": ("Lean theorems about the model of Program::new's first stage (C09_stage1_rejects, step1_errors_mono, step1Name_double): every fault recorded by the stage (double declaration, double assignment, assignment to a built-in output or constant, constant reading a wire/undeclared name) makes Program.new return an error for every iteration order, and errors are never dropped. The full fault list of the statement is Spec.faults; fault injection of every class at every kind of name compares the real accept/reject and the (kind, name) multiset with the model, the verdict with Spec.faults, and requires the injected name in the diagnostics. C09_accepted: in every accepted program, under every iteration order, the value-writing actions have pairwise distinct outputs, none drives a register output or a constant, every wire read is a register output, a constant or the output of an earlier action, and the state-changing actions write no wire.",
+ "C09": ("Lean theorems about the model of Program::new's first stage (C09_stage1_rejects, step1_errors_mono, step1Name_double): every fault recorded by the stage (double declaration, double assignment, assignment to a built-in output or constant, constant reading a wire/undeclared name) makes Program.new return an error for every iteration order, and errors are never dropped. The full fault list of the statement is Spec.faults; fault injection of every class at every kind of name compares the real accept/reject and the (kind, name) multiset with the model, the verdict with Spec.faults, and requires the injected name in the diagnostics. Statement-level clauses for every accepted program (so: their negation means rejection, under every flag set and iteration order): C09_declared_wire_is_assigned, C09_no_name_assigned_twice (also within one statement), C09_no_name_declared_twice (nor a built-in name redeclared), C09_read_names_declared, C09_constants_not_assigned. C09_accepted: in every accepted program, under every iteration order, the value-writing actions have pairwise distinct outputs, none drives a register output or a constant, every wire read is a register output, a constant or the output of an earlier action, and the state-changing actions write no wire.",
          'Later stages (banks, unset wires, partial components) are covered by the model correspondence and Spec.faults oracle, not yet by theorems.',
          'Lean 4 proof (fold monotonicity) + exhaustive-by-class fault injection with differential oracle'),
  "C10": ("Lean theorems C10_cycle_iff, C10_sorter_spec, C10_never_panics, C10_reported_loop_is_real about a model of Graph::topological_sort/find_cycle that takes the hash-iteration orders as explicit data: for every order the sorter reports a cycle iff one exists, the reported cycle is real, a successful sort is a complete linear extension, and the panic!/underflow sites are unreachable. Tied to the code by replaying the real sorter's logged iteration orders (identical output required) on every digraph with <=4 nodes and random larger ones; program-level loop injection (through components, banks, write ports, constants) is compared with the reachability-based specification. C10_accepted_acyclic: the dependency graph of an accepted program's value-writing actions (u -> v when the definition or component driving v reads u) has no cycle, under every iteration order: a program with a combinational loop is never accepted; the sorter theorem is instantiated on the graphs the program builds (GBuild.sort_spec). C10_reported_loop_real: whenever the diagnostics of Program::new (any statements, flags, iteration order) contain a loop report it is the only diagnostic and the wires it names form a cycle of the dependency relation of the statements (each is read by the definition, or is an input of the built-in component, that drives the next; the last drives the first) - every other diagnostic source of every stage is shown never to have the kind WireLoop (Program_new_nl).",
@@ -84,7 +84,7 @@ CLAIMS = {
  "C11": ("Lean theorems C11_grammar_tiers_documented / C11_grammar_ops_documented (the BinTier/NonAssoc chain and operator groups "
          "extracted from parser.lalrpop on this run are the documented ten levels, tightest * / ... loosest ||, comparisons and "
          "'in' not chaining), C11_model_tiers_documented (the Lean parser model uses the same table), C11_preamble_values (every "
-         "predefined name of the preamble text extracted from program.rs lexes to its CS:APP value), C11_binary / C11_hex / C11_decimal / C11_digit (for every digit string of every length followed by any non-digit: a 0b literal of at most 128 digits lexes to its base-2 value with width = digit count, a 0x literal to its base-16 value and a decimal literal to its base-10 value, unsized, exactly when the value is below 2^128, and to InvalidConstant otherwise; the span is the literal), with Tie.Lexer (character "
+         "predefined name of the preamble text extracted from program.rs lexes to its CS:APP value), C11_binary / C11_hex / C11_decimal / C11_digit (for every digit string of every length followed by any non-digit: a 0b literal of at most 128 digits lexes to its base-2 value with width = digit count, a 0x literal to its base-16 value and a decimal literal to its base-10 value, unsized, exactly when the value is below 2^128, and to InvalidConstant otherwise; the span is the literal), C11_block_comment / C11_hash_comment / C11_slash_comment / C11_blank_space (a comment of each kind and any run of blank characters yields no token and the lexer continues with exactly the text after it), C11_pairs_and_triples_grouped and C11_unary_slice_in (kernel evaluation of the parser model on every pair and every triple of the 17 binary operators, every unary operator in both operand positions, slices and `in` against every binary operator: the tree returned is the unique one grouped by the documented levels, and two comparisons in a row are refused), with Tie.Lexer (character "
          "classes, token table) and Tie.Grammar. The lexer and expression-parser models are compared with the real lexer/parser "
          "token by token and node by node including spans; the oracle is by construction: minimal-parenthesis, full-parenthesis "
          "and comment/blank-laden renderings of one tree must parse identically, literals of known value must lex to it.",
@@ -143,11 +143,11 @@ CLAIMS = {
          "generated state, not proved.",
          "Lean 4 proof (memory walk: invariant over the sorted keys, token round trip, reachability of the hypothesis) + "
          "differential model + parse-back oracle"),
- "C17": ("Lean theorem C17_eval_flag_independent: an expression accepted under two strictness flag sets has the same width "
+ "C17": ("Lean theorems C17_accepted_same_program / C17_accepted_same_run (a statement list accepted under two combinations of the five options is built into the same program - constants, actions incl. the width fix-up, banks, tables - and, from the initial state on any memory image with any timeout, runs to the same final state or the same division-by-zero report under both), C17_eval_flag_independent: an expression accepted under two strictness flag sets has the same width "
          "and evaluates identically under both, for every valuation (the flags occur in the model's check and applyBin; the "
          "specification's value does not mention them). The harness is rebuilt per cargo feature set and accept/reject + "
          "values are compared with model and specification run with the same flags.",
-         "check_eq_typeOf / C17_accept give acceptance of an expression under every flag set as exactly Spec.typeOf with the enabled rules; that two builds of a whole program accepted under two flag sets run identically is compared differentially (per-feature builds), not proved at program level.",
+         "check_eq_typeOf / C17_accept give acceptance of an expression under every flag set as exactly Spec.typeOf with the enabled rules; program-level acceptance per flag set (which programs each option rejects) is compared differentially with the per-feature builds.",
          "Lean 4 proof + per-feature-set differential builds"),
 }
 
